@@ -72,7 +72,7 @@ impl Property for C11 {
         "C11"
     }
     fn cases(&self, tier: Tier) -> u32 {
-        tier.pick(40_000, 400_000)
+        tier.pick(300_000, 3_000_000)
     }
     fn strategy(&self, tier: Tier) -> BoxedStrategy<Self::Abs> {
         let n = tier.pick(30, 60);
